@@ -527,6 +527,50 @@ def _zero_before(f, x, ev):
     return True
 
 
+def rule_sent(S):
+    facts = S.facts()
+    KT = Y + 'base_node::key_tuple'
+    S.rule('R-SENT', 'key_tuple::max() / min() (the cursor\'s +infinity / -infinity): max() is (slice of eight 0xFF bytes, '
+                     'the length the slicing constructor gives a key that continues below the slice - the greatest length a '
+                     'tuple carries), min() is (0, length 0): under operator< no tuple of a stored entry is greater than '
+                     'max() or smaller than min(), so an infinite endpoint excludes nothing')
+    ctor = [f for f in facts.by_qname(KT + '::key_tuple') if len(f.params) == 1 and 'string_view' in f.params[0]['type']]
+    if not ctor:
+        raise AnalysisBroken('R-SENT: slicing constructor of key_tuple not found')
+    lens = []
+    for n in ctor[0].all_nodes():
+        if n['k'] == 'BinaryOperator' and n.get('op') == '=':
+            l = ctor[0].strip(ctor[0].ch(n)[0], casts=True)
+            if l is not None and l['k'] == 'MemberExpr' and l.get('name') == 'key_length_':
+                c = cv_through(ctor[0], ctor[0].ch(n)[1])
+                if c is not None:
+                    lens.append(c)
+    if not lens:
+        raise AnalysisBroken('R-SENT: the slicing constructor assigns no constant length (link length unknown)')
+    link_len = max(lens)
+    for nm, want in (('max', (2 ** 64 - 1, link_len)), ('min', (0, 0))):
+        f = facts.one(KT + '::' + nm)
+        rets = [n for n in f.all_nodes() if n['k'] == 'ReturnStmt']
+        got = None
+        for r in rets:
+            for x in f.walk(f.ch(r)[0]):
+                if x.get('ctor') == KT and len(x.get('args', [])) == 2:
+                    vals = [cv_through(f, f.node(a)) for a in x['args']]
+                    if all(v is not None for v in vals):
+                        got = tuple(vals)
+        ok = len(rets) == 1 and got == want
+        S.ob('R-SENT', f.qname, 'sentinel value', ok,
+             'returns (%s, %s)' % (hex(want[0]), want[1]) if ok else
+             'returns %s where (%s, %s) is required: %s' % (
+                 got, hex(want[0]), want[1],
+                 'a stored tuple (eight 0xFF bytes, length %d) compares greater than max(): the cursor ends before / '
+                 'skips keys beginning with eight 0xFF bytes' % link_len if nm == 'max' else
+                 'a stored tuple compares smaller than min()'), loc=f.loc)
+    uses = sum(1 for g in facts.functions.values() if g.blocks for n in g.all_nodes()
+               if n['k'] in CALL_KINDS and n.get('cq') in (KT + '::max', KT + '::min'))
+    S.require('R-SENT', 'uses of the sentinels', uses, 4)
+
+
 def run(S):
     S.undecided = ['that the callers use the comparison results correctly (e.g. which entries move in a split)',
                    'order across layers (full keys)', 'anything for tuples violating zero padding']
@@ -535,5 +579,6 @@ def run(S):
     rule_cmp(S)
     rule_use(S)
     rule_slice(S)
+    rule_sent(S)
     from checks import keylen
     keylen.rule_narrow(S)
